@@ -268,6 +268,49 @@ func genTcp(o *Out, r *Rng, n int, tier string) {
 		args = append(args, "HS(std;replay;-)", "TP")
 		o.emit("C05", "SEQ", args...)
 	}
+	// a send that fails half-way — an unencodable value behind more than one writer buffer of content — followed by good sends on the
+	// same client: nothing of the failed message may go out with them (seed-independent; with and without acks; Message and Forward)
+	for _, ra := range []string{"t", "f"} {
+		for _, kind := range []string{"MSG", "EXT", "FWD"} {
+			for _, sz := range []int{1500, 3000, 9000} {
+				bad := &absMsg{kind: kind, tag: []byte("bad"), ts: 7, t: genGoTime(r)}
+				rec := nMap(nStr([]byte("k")), nArr(nStr(r.Bytes(sz)), &Node{K: KBad}))
+				if kind == "FWD" {
+					bad.entries = []absEntry{{t: genGoTime(r), rec: nMap(nStr([]byte("k")), nStr(r.Bytes(sz)))}, {t: genGoTime(r), rec: rec}}
+				} else {
+					bad.rec = rec
+				}
+				good := &absMsg{kind: kind, tag: []byte("good"), ts: 8, t: genGoTime(r), rec: nMap(nStr([]byte("k")), nStr([]byte("v")))}
+				if kind == "FWD" {
+					good.entries = []absEntry{{t: genGoTime(r), rec: nMap(nStr([]byte("k")), nStr([]byte("v")))}}
+				}
+				o.emit("C09", "SEQ", "CFG(-;"+ra+";t;"+hx([]byte("h"))+")", "CON(ok;f)", fmt.Sprintf("SND(%s;match;-)", bad.token(nil)),
+					fmt.Sprintf("SND(%s;match;-)", good.token(nil)), fmt.Sprintf("RAW(%s;-)", hx(r.Bytes(3))), fmt.Sprintf("SND(%s;match;-)", good.token(nil)))
+				// … and raw bytes right after the failed send
+				o.emit("C02", "SEQ", "CFG(-;"+ra+";t;"+hx([]byte("h"))+")", "CON(ok;f)", fmt.Sprintf("SND(%s;match;-)", bad.token(nil)),
+					fmt.Sprintf("RAW(%s;-)", hx(r.Bytes(5))), fmt.Sprintf("SND(%s;match;-)", good.token(nil)))
+			}
+		}
+	}
+	// the same through the helpers: a helper call whose record cannot be encoded (behind more than a writer buffer of content), then good
+	// helper calls: what they put on the wire is exactly their own message
+	for _, ra := range []string{"t", "f"} {
+		for _, sz := range []int{1500, 3000, 9000} {
+			badRec := tokVal(nMap(nStr([]byte("k")), nArr(nStr(r.Bytes(sz)), &Node{K: KBad})))
+			goodRec := tokVal(nMap(nStr([]byte("k")), nStr([]byte("v"))))
+			ent := func(rec string) string { return fmt.Sprintf("E(%s;%s)", tokInstant(genGoTime(r)), rec) }
+			o.emit("C02", "SEQ", "CFG(-;"+ra+";t;"+hx([]byte("h"))+")", "CON(ok;f)",
+				fmt.Sprintf("HLP(SendMessage;74;%s)", badRec), fmt.Sprintf("HLP(SendMessage;74;%s)", goodRec),
+				fmt.Sprintf("HLP(SendMessageExt;74;%s)", badRec), fmt.Sprintf("HLP(SendMessageExt;74;%s)", goodRec),
+				fmt.Sprintf("HLP(SendForward;74;L(%s;%s))", ent(goodRec), ent(badRec)), fmt.Sprintf("HLP(SendForward;74;L(%s))", ent(goodRec)),
+				fmt.Sprintf("HLP(SendPacked;74;L(%s;%s))", ent(goodRec), ent(badRec)), fmt.Sprintf("HLP(SendPacked;74;L(%s))", ent(goodRec)))
+		}
+	}
+	// acks that arrive in two fragments, split at every position of a typical ack, each followed by another acknowledged send
+	for _, k := range []int{1, 2, 3, 4, 5, 6, 8, 13, 20, 29, 30, 31} {
+		o.emit("C08", "SEQ", "CFG(-;t;t;"+hx([]byte("h"))+")", "CON(ok;f)", fmt.Sprintf("SND(%s;match@%d;-)", pfmOfSize(r, 20), k),
+			fmt.Sprintf("SND(%s;match;-)", pfmOfSize(r, 21)), fmt.Sprintf("SND(%s;extraafter@%d;-)", pfmOfSize(r, 22), k), fmt.Sprintf("SND(%s;match;-)", pfmOfSize(r, 23)))
+	}
 	// a peer whose ack comes after the read deadline: the send fails, its message is on the wire once, the late ack is left for the next reader
 	for _, ra := range []string{"t", "f"} {
 		o.emit("C08", "SEQ", "CFG(-;"+ra+";t;"+hx([]byte("h"))+")", "CON(ok;f)", fmt.Sprintf("SND(%s;late;-)", pfmOfSize(r, 30)), "TP",
